@@ -429,8 +429,8 @@ func collectTVarBlockFacade(b Block) []string {
 	return collectTVarBlock(collE, collS, b)
 }
 
-func transTVFTypeWithSet(visited SSet, transTV func(TypeVar) FType, ftp FType) FType {
-	recurse := (func(_r0 FType) FType { return transTVFTypeWithSet(visited, transTV, _r0) })
+func transTVFTypeWithSet(visited SSet, recs dict.Dict[string, bool], transTV func(TypeVar) FType, ftp FType) FType {
+	recurse := (func(_r0 FType) FType { return transTVFTypeWithSet(visited, recs, transTV, _r0) })
 	switch _v17 := (ftp).(type) {
 	case FType_FTypeVar:
 		tv := _v17.Value
@@ -456,7 +456,15 @@ func transTVFTypeWithSet(visited SSet, transTV func(TypeVar) FType, ftp FType) F
 		return frt.Pipe(ParamdType{Name: pt.Name, Targs: nts}, New_FType_FParamd)
 	case FType_FRecord:
 		rt := _v17.Value
-		return frt.Pipe(transRecType(recurse, rt), New_FType_FRecord)
+		key := rtToKey(rt)
+		on, _ := frt.Destr2(dict.TryFind(recs, key))
+		frt.IfOnly(on, (func() {
+			frt.PipeUnit(frt.Sprintf1("Recursive record type is not supported, use union: %s", rt.Name), PanicNow)
+		}))
+		dict.Add(recs, key, true)
+		nrt := transRecType(recurse, rt)
+		dict.Add(recs, key, false)
+		return New_FType_FRecord(nrt)
 	case FType_FUnion:
 		ut := _v17.Value
 		uname := utName(ut)
@@ -464,10 +472,12 @@ func transTVFTypeWithSet(visited SSet, transTV func(TypeVar) FType, ftp FType) F
 			return ftp
 		}), (func() FType {
 			SSetPut(visited, uname)
+			nrecs := dict.New[string, bool]()
+			inUnion := (func(_r0 FType) FType { return transTVFTypeWithSet(visited, nrecs, transTV, _r0) })
 			cases := utCases(ut)
 			ntps := frt.Pipe(slice.Map(func(_v1 NameTypePair) FType {
 				return _v1.Ftype
-			}, cases), (func(_r0 []FType) []FType { return slice.Map(recurse, _r0) }))
+			}, cases), (func(_r0 []FType) []FType { return slice.Map(inUnion, _r0) }))
 			names := slice.Map(func(_v2 NameTypePair) string {
 				return _v2.Name
 			}, cases)
@@ -489,7 +499,8 @@ func transTVFTypeWithSet(visited SSet, transTV func(TypeVar) FType, ftp FType) F
 
 func transTVFType(transTV func(TypeVar) FType, ftp FType) FType {
 	visited := NewSSet()
-	return transTVFTypeWithSet(visited, transTV, ftp)
+	recs := dict.New[string, bool]()
+	return transTVFTypeWithSet(visited, recs, transTV, ftp)
 }
 
 func transTVVar(transTV func(TypeVar) FType, v Var) Var {
